@@ -34,6 +34,7 @@ type AlphaOpts struct {
 	ModOps        []string // mpause,mstart,mkill
 	ModUpdates    []CtxUpdate
 	ConsumerOnMod bool // consumer messages on module-owned contexts (must fail)
+	ParamChanges  []ParamSet // governance changes the module parameters (applied through the keeper, as the params module does)
 }
 
 func lifeAlpha(o AlphaOpts) func(sc *Scenario, v *View) []Action {
@@ -112,6 +113,14 @@ func lifeAlpha(o AlphaOpts) func(sc *Scenario, v *View) []Action {
 			out = append(out, actSetW(ow, to))
 		}
 		out = append(out, o.BindOps...)
+		for _, ps := range o.ParamChanges {
+			p := ps
+			if v.Params.MaxRequestTimeout == p.MaxTimeout && v.Params.ServiceFeeTax.String() == sdk.MustNewDecFromStr(p.Tax).String() {
+				continue // already in force
+			}
+			out = append(out, Action{Name: "gov(" + p.Name + ")", Kind: "gov", Tmpl: -1, Signer: XX,
+				Mod: func(ctx sdk.Context, k servicekeeperT) error { k.SetParams(ctx, p.Params()); return nil }})
+		}
 		return out
 	}
 }
@@ -338,6 +347,7 @@ var MSP = addr20("msprovider")
 func init() { addrNames["MSP"] = MSP }
 
 var tMsvc = Template{Name: "callms", Consumer: "C1", Service: "ms", Providers: []string{"MSP"}, Cap: 5, Timeout: 1}
+var tMsvcSuper = Template{Name: "callmssuper", Consumer: "C1", Service: "ms", Providers: []string{"MSP"}, Cap: 5, Timeout: 1, Super: true}
 var tMsvcLow = Template{Name: "callmslow", Consumer: "C2", Service: "ms", Providers: []string{"MSP"}, Cap: 1, Timeout: 1}
 
 func scMsvc(ps ParamSet, depth, blocks, msgs int) *Scenario {
@@ -351,7 +361,7 @@ func scMsvc(ps ParamSet, depth, blocks, msgs int) *Scenario {
 		Rig:   RigConfig{ModuleServices: []ModuleSvcSpec{{Module: "msmod", Service: "ms", Provider: MSP, Result: resultOK, Output: outputOK}}},
 		Funds: []Funding{{O1, 100}, {O2, 100}, {C1, 60}, {C2, 10}}, Extra: append(append([]sdk.AccAddress{}, allAccounts...), MSP),
 		Setup:     []Action{install, actDefine("a", "AU")},
-		Templates: []Template{tMsvc, tMsvcLow, tOne},
+		Templates: []Template{tMsvc, tMsvcLow, tOne, tMsvcSuper},
 		Alpha: lifeAlpha(AlphaOpts{RespKinds: []string{"ok"}, BindOps: []Action{
 			actBind("ms", "P1", "O1", 10, "p1", 1), actBind("a", "P1", "O1", 10, "p1", 1), actBind("ms", "MSP", "O1", 10, "p1", 1)}}),
 		Depth: depth, MaxBlocks: blocks, MaxMsgs: msgs,
